@@ -3,6 +3,7 @@
 
 #include "stream.h"
 #include <fcntl.h>
+#include <limits.h>
 #include <stdio.h>
 #include <string.h>
 #include <sys/mman.h>
@@ -291,7 +292,31 @@ stream_step(struct stream *stream)
 		}
 	}
 
+	/* Ensure the header is inside the stream before reading it */
+	int64_t left = stream->size - stream->offset;
+	if (left < (int64_t) sizeof(struct ovni_ev_header)) {
+		err("stream '%s' ends with incomplete event header",
+				stream->relpath);
+		return -1;
+	}
+
 	stream->cur_ev = (struct ovni_ev *) &stream->buf[stream->offset];
+
+	if (stream->cur_ev->header.flags & OVNI_EV_JUMBO) {
+		/* A jumbo event also needs its size field... */
+		if (left < (int64_t) (sizeof(struct ovni_ev_header) + sizeof(uint32_t))) {
+			err("stream '%s' ends with incomplete jumbo event",
+					stream->relpath);
+			return -1;
+		}
+
+		/* ...and a size that ovni_ev_size() can represent */
+		if (stream->cur_ev->payload.jumbo.size > (uint32_t) INT_MAX - 16) {
+			err("stream '%s' has a jumbo event too large at offset %"PRIi64,
+					stream->relpath, stream->offset);
+			return -1;
+		}
+	}
 
 	/* Ensure the event fits */
 	if (stream->offset + ovni_ev_size(stream->cur_ev) > stream->size) {
